@@ -88,6 +88,8 @@ def step(ins, regs):
         return f(a, c) if side == 'r' else f(c, a)
     if op == 'pow':
         return regs[ins[1]] ** ins[2]
+    if op == 'powreg':
+        return regs[ins[1]] ** regs[ins[2]]
     if op == 'neg':
         return -regs[ins[1]]
     if op == 'get':
@@ -270,6 +272,12 @@ def precond(ins, regs):
             if isinstance(r, int):
                 return bool(np.all(np.abs(v) >= 0.3))
             return bool(np.all(v >= 0.3))
+        if op == 'powreg':
+            a, b = np.asarray(regs[ins[1]]), np.asarray(regs[ins[2]])
+            if _is_cplx(a) or _is_cplx(b):
+                return False
+            np.broadcast_shapes(a.shape, b.shape)
+            return bool(np.all(a >= 0.3) and np.all(np.abs(b) <= 3))
         if op in ('inv', 'det', 'logdet', 'lu'):
             m = np.asarray(regs[ins[1]])
             if m.ndim != 2 or m.shape[0] != m.shape[1] or _is_cplx(m):
@@ -360,7 +368,7 @@ def _magnitude_ok(v):
 FAMILIES_ALL = ['un', 'un', 'kink', 'special', 'unp', 'bin', 'bin', 'bcast', 'binc', 'binc', 'pow', 'neg', 'get', 'get', 'T', 'reshape',
                 'buf', 'set', 'set', 'rmw', 'rmw', 'sum', 'prod', 'trace', 'dot', 'dot', 'dotc', 'outer', 'inv', 'solve', 'det',
                 'logdet', 'qr', 'chol', 'eigh', 'svd', 'lu', 'fft', 'tile', 'diag', 'symvec']
-FAMILIES_FWD_ONLY = ['unfwd', 'minmax', 'tri', 'abs', 'expm', 'svdfull', 'umax']
+FAMILIES_FWD_ONLY = ['unfwd', 'minmax', 'tri', 'abs', 'expm', 'svdfull', 'umax', 'powreg']
 FAMILIES_POLY = ['un', 'bin', 'bin', 'bcast', 'binc', 'binc', 'pow', 'neg', 'get', 'get', 'T', 'reshape', 'buf', 'set', 'rmw', 'sum', 'prod',
                  'trace', 'dot', 'dot', 'dotc', 'outer', 'tile', 'diag']
 
@@ -550,7 +558,7 @@ FIRST_INPUT = {'inv': 'regular', 'det': 'regular', 'logdet': 'posdet', 'solve': 
                'chol': 'square', 'eigh': 'gapsym', 'svd': 'svd', 'trace': 'matrix', 'T': 'matrix', 'diag': 'vecorsquare',
                'symvec': 'square', 'outer': 'vector', 'dot': 'vecormat', 'dotc': 'vecormat', 'prod': 'vector', 'tile': 'vecormat',
                'sum': 'vecormat', 'reshape': 'vecormat', 'get': 'vecormat', 'fft': 'vecormat', 'tri': 'matrix',
-               'expm': 'square', 'svdfull': 'svd', 'minmax': 'vecormat', 'umax': 'vector', 'kink': 'awayzero', 'abs': 'awayzero', 'pow': 'withzeros', 'special': 'unitinterval', 'unp': 'unitinterval', 'unfwd': 'unitinterval', 'dotnd': 'cube', 'eig': 'realeig'}
+               'expm': 'square', 'svdfull': 'svd', 'minmax': 'vecormat', 'umax': 'vector', 'kink': 'awayzero', 'abs': 'awayzero', 'pow': 'withzeros', 'special': 'unitinterval', 'unp': 'unitinterval', 'unfwd': 'unitinterval', 'dotnd': 'cube', 'eig': 'realeig', 'powreg': 'unitinterval'}
 
 
 @st.composite
@@ -778,6 +786,18 @@ def _emit_family_impl(draw, S, fam, allow_set_broadcast=True, allow_ndim_dot=Fal
                 return False
             a = S.nreg() - 1
         return S.try_emit(['pow', a, r])
+    if fam == 'powreg':
+        # polynomial ** polynomial (traced: the exponent is an operand of the node, not a constant)
+        a = _pick(draw, S, lambda q: real(q) and all(precond(['pow', q, 0.5], S.regs[k]) for k in range(S.K)))
+        if a is None:
+            c = _pick(draw, S, real)
+            if c is None or not S.try_emit(['un', 'square', c]) or not S.try_emit(['binc', 'add', S.nreg() - 1, 0.5, 'r']):
+                return False
+            a = S.nreg() - 1
+        b = _pick(draw, S, lambda q: real(q) and q != a and all(precond(['powreg', a, q], S.regs[k]) for k in range(S.K)))
+        if b is None:
+            return False
+        return S.try_emit(['powreg', a, b])
     if fam == 'neg':
         a = _pick(draw, S, lambda r: True)
         return S.try_emit(['neg', a])
@@ -796,6 +816,14 @@ def _emit_family_impl(draw, S, fam, allow_set_broadcast=True, allow_ndim_dot=Fal
         a = _pick(draw, S, lambda r: S.ndim(r) >= 1 and int(np.prod(S.shape(r))) >= 1)
         if a is None:
             return False
+        if S.ndim(a) == 2 and draw(st.booleans()):
+            # a non-contiguous source: transposed or strided view (NumPy copies in reshape, or reshapes the view)
+            if draw(st.booleans()):
+                if S.try_emit(['T', a]):
+                    a = S.nreg() - 1
+            else:
+                if S.try_emit(['get', a, (slice(None), slice(None, None, -1))] if draw(st.booleans()) else ['get', a, (slice(None, None, -1),)]):
+                    a = S.nreg() - 1
         n = int(np.prod(S.shape(a)))
         opts = [(n,), (-1,), (1, n), (n, 1)]
         for k in (2, 3):
@@ -980,8 +1008,14 @@ def _emit_family_impl(draw, S, fam, allow_set_broadcast=True, allow_ndim_dot=Fal
         ok = S.try_emit([which, a, None, axis])
         if ok:
             z = S.nreg() - 1
-            form = draw(st.integers(0, 5))
-            if form >= 4:
+            form = draw(st.integers(0, 7))
+            if form >= 6:
+                # imag(z) (or real(z)) next to another consumer of z
+                S.try_emit([draw(st.sampled_from(['imag', 'imag', 'real'])), z])
+                part = S.nreg() - 1
+                if S.try_emit(['bin', 'mul', z, z]) and S.try_emit(['real', S.nreg() - 1]):
+                    S.try_emit(['bin', draw(st.sampled_from(['add', 'mul'])), S.nreg() - 1, part])
+            elif form >= 4:
                 # mix the complex intermediate with a real register: z - r, r - z, z + r, r * z
                 r = _pick(draw, S, lambda q: not S.cplx(q) and S.shape(q) in ((), S.shape(z)))
                 if r is not None:
@@ -1066,6 +1100,17 @@ def _emit_set(draw, S, b, allow_set_broadcast):
     shape = S.shape(b)
     idx = _basic_index(draw, shape)
     tshape = np.shape(S.regs[0][b][idx])
+    if draw(st.integers(0, 5)) == 0 and S.ndim(b) >= 1:
+        # buf[idx] = buf[k]: the value is a view of the target buffer itself
+        k = draw(st.integers(0, shape[0] - 1))
+        if S.try_emit(['get', b, k]):
+            v = S.nreg() - 1
+            try:
+                fits_self = np.broadcast_shapes(tshape, S.shape(v)) == tshape
+            except ValueError:
+                fits_self = False
+            if fits_self and (allow_set_broadcast or S.shape(v) == tshape):
+                return S.try_emit(['set', b, idx, v])
     if draw(st.integers(0, 3)) == 0:
         if len(tshape) >= 1 and draw(st.booleans()):
             c = np.asarray(draw(gen.float_array(tshape, st.sampled_from([0.5, 1.0, 2.0, -1.0, 0.0]), sparse=False)), dtype=float)
@@ -1087,9 +1132,6 @@ def _emit_set(draw, S, b, allow_set_broadcast):
             return False
     v = _pick(draw, S, fits)
     if v is None:
-        return False
-    if v in S.bufroot and S.bufroot[v] == S.bufroot.get(b):
-        # value aliases the target buffer: overlapping self-assignment is not a form callers use
         return False
     return S.try_emit(['set', b, idx, v])
 
@@ -1191,7 +1233,7 @@ def features(case):
             f.add('complex-intermediate')
         if op in ('reshape', 'T', 'tile', 'diag', 'symvec', 'sum', 'prod', 'trace'):
             f.add(op)
-        if op == 'un' and ins[1] in UN_NONLINEAR or op in ('unp', 'pow', 'dot', 'outer', 'inv', 'solve', 'det', 'logdet', 'prod', 'qr', 'qr_full',
+        if op == 'un' and ins[1] in UN_NONLINEAR or op in ('unp', 'pow', 'powreg', 'dot', 'outer', 'inv', 'solve', 'det', 'logdet', 'prod', 'qr', 'qr_full',
                                                           'chol_spd', 'eigh_sym', 'eigh_fun', 'svd_s', 'svd_full', 'lu', 'expm', 'eig_val') \
                 or (op == 'bin' and ins[1] in ('mul', 'div')) or (op == 'binc' and ins[1] == 'div' and ins[4] == 'l'):
             f.add('nonlinear')
